@@ -62,7 +62,7 @@ type snapshot struct {
 
 func snapString(b *store.Balance, n *store.Node) string {
 	if b != nil {
-		return fmt.Sprintf("%s/%s/%s", b.Account, b.Credit.String(), b.Deposit.String())
+		return fmt.Sprintf("%s/%s/%s", b.Account, bigStr(&b.Credit), bigStr(&b.Deposit))
 	}
 	return fmt.Sprintf("%+v", *n)
 }
@@ -261,11 +261,11 @@ func (w *World) nodeRec(n store.Node) J {
 func (w *World) balRec(b store.Balance) J {
 	c, ok := w.money.abs(&b.Credit)
 	if !ok {
-		w.tr.flagAmt("credit %s is not a multiple of the unit", b.Credit.String())
+		w.tr.flagAmt("credit %s is not a multiple of the unit", bigStr(&b.Credit))
 	}
 	d, ok := w.money.abs(&b.Deposit)
 	if !ok {
-		w.tr.flagAmt("deposit %s is not a multiple of the unit", b.Deposit.String())
+		w.tr.flagAmt("deposit %s is not a multiple of the unit", bigStr(&b.Deposit))
 	}
 	return J{"account": w.names.abs(string(b.Account)), "credit": c, "deposit": d}
 }
@@ -416,11 +416,11 @@ func (w *World) storeOp(op J) (J, error) {
 func (w *World) statsRec(st *store.Stats) J {
 	c, ok := w.money.abs(&st.TotalCredit)
 	if !ok {
-		w.tr.flagAmt("total credit %s is not a multiple of the unit", st.TotalCredit.String())
+		w.tr.flagAmt("total credit %s is not a multiple of the unit", bigStr(&st.TotalCredit))
 	}
 	d, ok := w.money.abs(&st.TotalDeposit)
 	if !ok {
-		w.tr.flagAmt("total deposit %s is not a multiple of the unit", st.TotalDeposit.String())
+		w.tr.flagAmt("total deposit %s is not a multiple of the unit", bigStr(&st.TotalDeposit))
 	}
 	return J{
 		"active_hosts":   st.NumActiveHosts,
